@@ -83,6 +83,8 @@ class _Real:
             return m.InitSequenceStart.from_init_values(spec[1], spec[2])
         if k == "from_ping_values":
             return m.PingSequenceStart.from_ping_values(spec[1], spec[2])
+        if k == "flaky":
+            return _flaky_start(self.SequenceStart, spec[1])
         gen = {"gen_init": m.InitSequenceStart, "gen_ping": m.PingSequenceStart,
                "gen_account": m.AccountReplySequenceStart}.get(k)
         if gen is None:
@@ -98,6 +100,32 @@ class _Real:
         return obj
 
 
+class _Unavailable(Exception):
+    """Raised by a flaky start while the harness has switched it off."""
+
+
+_flaky_cls = {}
+
+
+def _flaky_start(base, value):
+    """A SequenceStart whose value is temporarily unavailable while `broken` is set (a start that is
+    computed lazily, fetched from elsewhere, ...). A request that fails must not count as a request."""
+    cls = _flaky_cls.get(base)
+    if cls is None:
+        class Flaky(base):
+            def __init__(self, v):
+                self._v = v
+                self.broken = False
+
+            @property
+            def value(self):
+                if self.broken:
+                    raise _Unavailable()
+                return self._v
+        cls = _flaky_cls[base] = Flaky
+    return cls(value)
+
+
 def _interpret(impl, case):
     """The oracle. Runs the history on two fresh sequencers; raises Violation at the first step
     that breaks the statement (the reported case is cut after that step).
@@ -109,6 +137,7 @@ def _interpret(impl, case):
 
     sa, sb = impl.build(case["init"]), impl.build(case["init"])
     cur = sa.value
+    in_force = (sa, sb)
     try:
         A, B = impl.Seq(sa), impl.Seq(sb)
     except Exception as e:  # noqa
@@ -119,6 +148,32 @@ def _interpret(impl, case):
     pending_update = False      # an update seen after at least one request
     between = False
     for i, op in enumerate(ops):
+        if op == "nf" and hasattr(in_force[0], "broken"):
+            # a request while the start in force cannot produce its value: either it fails (then it is
+            # not a returned number and must not consume a slot) or it returns the right number
+            exp = cur + n % 10
+            for s_ in in_force:
+                s_.broken = True
+            outs = []
+            for S in (A, B):
+                try:
+                    outs.append(("ok", S.next_sequence()))
+                except _Unavailable:
+                    outs.append(("unavailable", None))
+                except Exception as e:  # noqa
+                    outs.append(("exc", f"{type(e).__name__}: {e}"))
+            for s_ in in_force:
+                s_.broken = False
+            if outs[0][0] == "exc" or outs[0] != outs[1]:
+                raise Violation("nth_equals_start_plus_n_mod_10", cut(i), "fails cleanly or returns " + str(exp),
+                                repr(outs), f"request n={n} while the start's value was unavailable")
+            if outs[0][0] == "ok":
+                if outs[0][1] != exp:
+                    raise Violation("nth_equals_start_plus_n_mod_10", cut(i), exp, outs[0][1], f"request n={n}")
+                n += 1
+            continue
+        if op == "nf":
+            op = "n"
         if op == "n":
             exp = cur + n % 10
             try:
@@ -139,6 +194,7 @@ def _interpret(impl, case):
         else:
             na, nb = impl.build(op[1]), impl.build(op[1])
             cur = na.value
+            in_force = (na, nb)
             try:
                 A.set_sequence_start(na)
                 B.set_sequence_start(nb)
@@ -337,9 +393,10 @@ def _strategy():
         st.builds(lambda x, y: ["gen_init", x, y], st.integers(0, 1756), st.integers(0, 40)),
         st.builds(lambda x, y: ["gen_ping", x, y], st.integers(0, 1756), st.integers(0, 252)),
         st.builds(lambda x: ["gen_account", x], st.integers(0, 239)),
+        st.builds(lambda v: ["flaky", v], st.one_of(st.integers(0, 1756), boundary)),
     )
     setop = st.builds(lambda s: ["s", s], spec)
-    op = st.one_of(st.just("n"), st.just("n"), st.just("n"), setop)
+    op = st.one_of(st.just("n"), st.just("n"), st.just("n"), setop, st.just("nf"))
     flat = st.integers(0, MAX_STEPS).flatmap(lambda k: st.lists(op, min_size=k, max_size=MAX_STEPS))
     # run-length form: (optional update, then r requests), repeated
     block = st.tuples(st.one_of(st.none(), setop), st.integers(0, 14))
